@@ -386,9 +386,9 @@ func fromOrig(c common, orig any) (Manifest, error) {
 		c.rawBody = mj
 	}
 	if _, ok := orig.(schema1.SignedManifest); !ok {
-		c.desc.Digest = c.desc.DigestAlgo().FromBytes(mj)
+		c.desc.Digest = c.desc.DigestAlgo().FromBytes(c.rawBody)
 	}
-	c.desc.Size = int64(len(mj))
+	c.desc.Size = int64(len(c.rawBody))
 	// create manifest based on type
 	switch mOrig := orig.(type) {
 	case schema1.Manifest:
